@@ -68,6 +68,9 @@ pub struct ExecOpts {
     pub focus: Option<&'static str>,
     /// use this placement stream instead of the script's own (W4: all arenas of a case share one)
     pub placement: Option<crate::simalloc::Placement>,
+    /// C07 twin: every constructed arena immediately gets set_allocation_limit(Some(usize::MAX)),
+    /// a limit that can never bind; behaviour must equal that of the arena without any limit
+    pub huge_limit: bool,
 }
 
 pub struct Consts {
